@@ -9,3 +9,4 @@ from vt.contracts import iface_nll  # noqa: F401,E402
 from vt.contracts import fit_resolution  # noqa: F401,E402
 from vt.contracts import derivs  # noqa: F401,E402  (FCN / CombineFCN: the point passed is the point evaluated and stored)
 from vt.contracts import var_sym  # noqa: F401,E402  (standard_complex with tie groups: the tidy-up that ends every scipy fit)
+from vt.contracts import fit_modular  # noqa: F401,E402  (fit_scipy against scripted abstract minimisers)
